@@ -3,6 +3,7 @@ package main
 import (
 	"fmt"
 	"go/types"
+	"os"
 	"strings"
 	"time"
 
@@ -40,6 +41,12 @@ func (e *Engine) VerifyFunction(fn *ssa.Function) *FuncReport {
 		return e.verifyFunction(fn, false)
 	}
 	rep := e.verifyFunction(fn, true)
+	if os.Getenv("GOV_DEBUG") != "" {
+		fmt.Printf("DEBUG %s first attempt: paths=%d failed=%v\n", rep.Fn, rep.Paths, rep.Failed)
+		if os.Getenv("GOV_DEBUG") == "nomerge" {
+			return rep
+		}
+	}
 	for _, f := range rep.Failed {
 		if strings.Contains(f, "path limit") || strings.Contains(f, "fork limit") || strings.Contains(f, "time limit") || strings.Contains(f, "step limit") {
 			return e.verifyFunction(fn, false)
@@ -51,9 +58,9 @@ func (e *Engine) VerifyFunction(fn *ssa.Function) *FuncReport {
 func (e *Engine) verifyFunction(fn *ssa.Function, noMerge bool) *FuncReport {
 	ct := e.contractFor(fn)
 	ex := &Exec{eng: e, root: fn, rootName: shortFn(fn), maxSteps: 3000000, maxPaths: 3000, inlined: map[string]bool{}, usedCtr: map[string]bool{},
-		noMerge: noMerge, intrUsed: map[string]bool{}, trivialNames: map[string]string{}, clauseProps: map[string][]string{}, ordinals: map[ssa.Instruction]string{}, maxForks: 200}
+		noMerge: noMerge, intrUsed: map[string]bool{}, trivialNames: map[string]string{}, clauseProps: map[string][]string{}, ordinals: map[ssa.Instruction]string{}, maxForks: 1500}
 	if noMerge {
-		ex.maxPaths = 96
+		ex.maxPaths = 400
 	}
 	ex.allowPanic = ct != nil && ct.AllowPanic
 	rep := &FuncReport{Fn: ex.rootName, HasCtr: ct != nil}
